@@ -360,6 +360,13 @@ def run_sliding(desc):
     Q = np.round(rng.randn(6, 2), 3)
     for step in range(int(rng.randint(2, 8))):
         op = "fit" if step == 0 or rng.rand() < 0.2 else "partial_fit"
+        if step > 0 and rng.rand() < 0.25:
+            # a window size changed through set_params takes effect with the next fit (which restarts the window)
+            w = [v for v in (1, 2, 4, None) if v != w][rng.randint(3)]
+            swc.set_params(window_size=w)
+            p0 = st.params_fp(swc)
+            ops.append(("set_params", "window_size=%s" % w, 0))
+            op = "fit"
         X, y = _data(rng, "clf", n=int(rng.randint(1, 6)))
         sw = np.round(rng.rand(len(X)) + 0.2, 2) if use_w else None
         try:
@@ -379,7 +386,7 @@ def run_sliding(desc):
             steps.end()
         ops.append((op, len(X), int(np.isnan(y).sum())))
         if op == "fit":
-            ref.clear()
+            ref = collections.deque(maxlen=w)
         for i in range(len(X)):
             if ol and np.isnan(y[i]):
                 continue
@@ -406,7 +413,7 @@ def run_sliding(desc):
     contracts.count("C13.refit-vs-fresh-oracle", 0)
     contracts.count("C13.write-monitor-armed", 0)
     contracts.count("C13.params-stability-monitor", 0)
-    total = sum(o[1] for o in ops)
+    total = sum(o[1] for o in ops if o[0] != "set_params")
     return {"status": "ok", "violations": viol, "nontrivial": bool(w is not None and total > w),
             "nt_key": "sliding|%s|%s|w%d|%s" % (w, ol, use_w, ops), "cells": ["sliding|%s" % desc["name"]],
             "monitors": contracts.drain_evals(), "observed": {"window_size": w, "only_labeled": ol, "weights": use_w, "ops": ops}}
